@@ -48,6 +48,13 @@ class Inputs:
                 f.write("%s\t%s\t%s\n" % (i, k, d.hex()))
 
 
+def inp_dir(inp, did):
+    for i, k, d in inp.rows:
+        if i == did:
+            return d.decode()
+    return ""
+
+
 def parse_out(line):
     """driver line -> [(step name, {k: v})] or None for CRASH / THROW / TIMEOUT"""
     if not line or line.startswith(("CRASH", "THROW", "TIMEOUT")) or line == "<missing>":
@@ -246,12 +253,17 @@ def make_inputs(ctx, drv, quick):
     for k in range(6 if quick else 40):
         lines, info = sg.random_model_script(rng, valid=False, p_math=0.7, p_import=0.0, p_bad=0.4)
         bad_scripts.append(inp.add("script", ";".join(lines).encode(), cls="badmodel", maths=None, forests=None, tokc=True, sens=None))
+    tpath = os.path.join(ctx.workdir, "pre2.table")
+    inp.write(tpath)
+    outs = run_driver(drv, tpath, ["G:1 build:%s:m validate:v:m analyse:a:m print:r:m" % b for b in bad_scripts], ctx.workdir, "pre2")
+    bad_scripts = [b for b, o in zip(bad_scripts, outs) if parse_out(o) is not None] or bad_scripts[:1]
     badmath = inp.add("script", ";".join(["model 0 %s" % sg.S("pm"), "component 1 %s" % sg.S("c"), "addcomponent 0 1",
                                           "setmath 1 %s" % sg.S("<math><a></math>")]).encode(),
                       cls="badmath", maths=None, forests=None, tokc=True, sens=None)
     libw = inp.add("script", ";".join(cg.library_write_script(sg.S)).encode(), cls="libwrite", maths=None, forests=None,
                    tokc=False, sens=None)
     inp.graphs = graphs
+    inp.graph_by_dirname = {os.path.basename(inp_dir(inp, g["dir"]).rstrip("/")): g for g in graphs}
     return inp, dict(scripts=scripts, docs=docs, res=res, ana=ana, graphs=graphs, bad_docs=bad_docs,
                      bad_scripts=bad_scripts, badmath=badmath, libw=libw)
 
@@ -497,7 +509,7 @@ class Builder:
                 badm = self.fresh("m")
                 c.add("build:%s:%s" % (r.choice(self.sets["bad_scripts"]), badm), ("O",))
                 c.add("%s:%s:%s" % (op, s0, badm), None)
-            m, src, x = self.model_source(c, r.choice(["script", "ana"]) if op != "print" else "script", no_tok=(op == "analyse"))
+            m, src, x = self.model_source(c, r.choice(["script", "ana"]) if op != "print" else "script", no_tok=True)
             c.add("%s:%s:%s" % (op, s0, m), (ms, src), grp)
             c.add("%s:%s:%s" % (op, s1, m), (ms, src), grp)
         elif op in ("resolve", "flatten"):
@@ -619,10 +631,12 @@ def model_case(case, outs, inp):
                     break
             new = [x for x in d.get("LK", "").split(",") if x and x not in before]
             refs = []
-            for name in new:
-                if g["trees"].get(name) is None:
+            for key in new:
+                gdir, _, name = key.rpartition("/")
+                gg = inp.graph_by_dirname.get(gdir)
+                if gg is None or gg["trees"].get(name) is None:
                     return None
-                refs.append("#%s:%s" % (g["dir"], name))
+                refs.append("#%s:%s" % (gg["dir"], name))
             toks.append("I %d %s" % (len(refs), " ".join(refs)))
         elif k == "F":
             # partially modelled: the flag can only stay or be set; re-synchronise on the observed value
